@@ -17,8 +17,12 @@ import numpy as np
 from harness.core import Ctx
 
 ID = "C07"
-LEAN_MODULES = ["GeoVerif.Props.C07"]
+LEAN_MODULES = ["GeoVerif.Props.C07", "GeoVerif.Props.C07Mask"]
 THEOREMS = [
+    "GeoVerif.Geom.mc2_aligned",
+    "GeoVerif.Geom.mc2_cells_from_kept",
+    "GeoVerif.Geom.mc2_all_cells",
+    "GeoVerif.Geom.mc2_refuse",
     "GeoVerif.Reindex.keep_get",
     "GeoVerif.Reindex.rank_lt",
     "GeoVerif.Reindex.rank_inj",
@@ -57,7 +61,9 @@ LEVEL_TEXT = (
     "refused (formatLength_*). Masked copies: the copy holds the selected vertices with their values at their rank, exactly the "
     "cells all of whose vertices are selected, re-indexed onto the same coordinates, with their cell values; it is aligned, a mask "
     "of the wrong length is refused, and remove_vertices is the masked copy by the complement applied in place (mc_aligned, "
-    "mc_survivors, mc_cells_spec, mc_refuse, rv_eq_maskedCopy). Tied to the code by differential runs of the real objects "
+    "mc_survivors, mc_cells_spec, mc_refuse, rv_eq_maskedCopy); with a cell mask as well, the cells kept are the selected ones "
+    "none of whose vertices is dropped (mc2_aligned, mc2_cells_from_kept, mc2_all_cells, mc2_refuse). Text data ride along "
+    "with the geometry as opaque tokens. Tied to the code by differential runs of the real objects "
     "against the executable model."
 )
 LEVEL_NOTE = "Trusted: Lean kernel, harness, NumPy/h5py. Modelled: np.delete/boolean-mask semantics (validated by the correspondence)."
@@ -114,6 +120,9 @@ def gen_case(rng):
             # a masked copy: a random selection of the current vertices, now and then all, none, or a mask of the wrong length
             q = rng.random()
             ops.append(["copyMask", rng.randrange(1 << 16), "all" if q < 0.1 else "none" if q < 0.2 else "short" if q < 0.3 else "bits"])
+            if k and rng.random() < 0.5:
+                # the caller also selects cells: a selected cell that touches a dropped vertex cannot survive
+                ops[-1] = ["copyMask", rng.randrange(1 << 16), "bits", rng.randrange(1 << 8)]
         elif r < 0.95:
             ops.append(["reopen"])
         elif r < 0.97:
@@ -288,9 +297,15 @@ def run_case(ctx: Ctx, case, path):
                 bits = [bool((op[1] >> i) & 1) for i in range(nv)]
                 mask = {"all": [True] * nv, "none": [False] * nv, "short": bits[:-1] if nv else [True], "bits": bits}[op[2]]
                 lines.append({"m": "geom", "op": "maskCopy", "mask": mask})
+                kw_cm = {}
+                if len(op) > 3 and before["cells"]:
+                    cmask = [bool((op[3] >> i) & 1) for i in range(len(before["cells"]))]
+                    lines[-1] = {"m": "geom", "op": "maskCopy2", "mask": mask, "cmask": cmask}
+                    kw_cm = {"cell_mask": np.array(cmask, dtype=bool)}
+                    ctx.count("masked_copies_with_cell_mask")
                 cp = None
                 try:
-                    cp = obj.copy(mask=np.array(mask, dtype=bool))
+                    cp = obj.copy(mask=np.array(mask, dtype=bool), **kw_cm)
                     csnap = snapshot(cp)
                 except Exception as e:  # noqa: BLE001
                     status = ERR.get(type(e).__name__, "other:" + type(e).__name__)
